@@ -9,6 +9,6 @@ git -C /repo worktree add -q --detach "$w" HEAD || exit 2
 for p in "$@"; do
   out=$(VERIF_REPO="$w" VERIF_EVIDENCE_DIR="$w/.evid" VERIF_REPLAY_DIR="$w/.replays" /verif/check "$p" --tier "${TIER:-quick}" 2>&1 | grep -v "^KNOWN-FINDING")
   echo "== $id vs $p: $(echo "$out" | grep -c '^VIOLATION') violation line(s)"; echo "$out" | tail -3 | cut -c1-260
-  for r in $(echo "$out" | sed -n 's/^VIOLATION .*replay=\([^ ]*\).*/\1/p' | head -2); do jq -r '"   what: " + ((.what // .kind // "?") | tostring | .[0:400])' "$r" 2>/dev/null; done
+  for r in $(echo "$out" | sed -n 's/^VIOLATION .*replay=\([^ ]*\).*/\1/p' | head -8); do jq -r '"   what: " + ((.what // .kind // "?") | tostring | .[0:400])' "$r" 2>/dev/null; done
 done
 git -C /repo worktree remove --force "$w"
